@@ -16,11 +16,14 @@ CHECKS = {
  "C08": ("model_checking", "After RefFail the specification resumes after the examined characters, in Init, with an empty match; the whole remaining trace of every behaviour with unlexable input is compared.", REPLAY_TECH, "DESIGN.md 5 C08"),
  "C09": ("model_checking", "TLC checks the variant (Progress) and the bounds (Bounded) on the specification; real lexers are run freely under catch_unwind, an action budget and a watchdog on exhaustive small and random/long inputs, and each recording is validated by TLC as a behaviour of the specification.", REPLAY_TECH, "DESIGN.md 5 C09"),
  "C10": ("model_checking", "TLC explores every decision history the rules' menus allow (continue/return/Err x reset_match x switch); every action invocation (rule, match_loc, match_ text, peek, user-state counter) and every token is compared.", REPLAY_TECH, "DESIGN.md 5 C10"),
+ "C11": ("model_checking", "RangeMap.tla transcribes the three loops of range_map.rs iteration by iteration; TLC checks well-formedness and the point-wise meaning for every reachable representation and every operation over a small universe and prints every transition; each transition is replayed into the real RangeMap (by induction: all operation histories); one-class lexers for class expressions are checked against RefLexer.tla at every boundary point.", "TLA+ loop-level spec of RangeMap + TLC state graph replayed transition by transition into the real code; class-expression lexers replayed against RefLexer.tla", "DESIGN.md 5 C11"),
+ "C13": ("exploration", "Exhaustive over the stated domain: every built-in, three to four generated shapes, all 1,112,064 scalar values, compared with the Rust predicates (oracle imported at check time); TLC checks the two generated membership-test shapes (guard chain, binary search with the generated comparator) on all small tables (Lookup.tla). The truth of char::is_* cannot live in a TLA+ spec, hence exploration level.", "exhaustive sweep of real lexers against Rust predicates + TLA+ Lookup.tla for the two lookup shapes", "DESIGN.md 5 C13"),
  "C14": ("model_checking", "Every specification behaviour is replayed through the four constructors; the four recorded streams must be the same stream; random runs through random constructors are validated by TLC.", REPLAY_TECH, "DESIGN.md 5 C14"),
+ "C18": ("model_checking", "CharRangeGen.tla models the generator's single pass (one action per code point, skip of the surrogate gap, open-range register, final flush); TLC runs it for all 256 predicates that are constant on 8 scalar segments, checks the result property and termination, and every predicate is concretised and run through the real generator; the 20 real predicates are compared with brute-force maximal runs.", "TLA+ spec of the generator loop + TLC over all boundary predicates, each replayed into the real function", "DESIGN.md 5 C18"),
  "C15": ("model_checking", "The specification is deterministic (one successor per decision), so a clone must continue with the same suffix; for every behaviour and every clone point original and clone are advanced under several interleavings and both suffixes compared with the specification.", REPLAY_TECH, "DESIGN.md 5 C15"),
 }
 
-PENDING = ["C02", "C11", "C12", "C13", "C16", "C17", "C18"]
+PENDING = ["C02", "C12", "C16", "C17"]
 
 def main():
     checks = []
